@@ -174,10 +174,8 @@ impl MaybeTagged<CoseSign1> {
         S: TryFrom<&'a [u8]>,
         S::Error: Into<signature::Error>,
     {
-        if let Some(RegisteredLabelWithPrivate::Assigned(alg)) =
-            self.inner.protected.header.alg.as_ref()
-        {
-            if verifier.algorithm() != *alg {
+        if let Some(alg) = self.inner.protected.header.alg.as_ref() {
+            if *alg != RegisteredLabelWithPrivate::Assigned(verifier.algorithm()) {
                 return VerificationResult::Failure(
                     "algorithm in protected headers did not match verifier's algorithm".into(),
                 );
